@@ -285,3 +285,8 @@ package auth
 //@ func (*IAMServiceInternal) storeIAM
 //@   at-call os.WriteFile {C17} [only-what-was-read-is-written-in-place] requires called("os.ReadFile") && ((!called("dynamic") && samearray($1, result("os.ReadFile", 0))) || samearray($1, datacopy))
 //@   at-call builtin.copy {C17} [the-copy-is-of-what-was-read] requires samearray($0, datacopy) && samearray($1, result("os.ReadFile", 0)) && len($0) == len($1)
+
+// ---- C10: a lock configuration that is accepted from a client is an enabled one ----------------------------
+// (a stored configuration that is not enabled switches off every retention and legal hold check of the bucket)
+//@ func ParseBucketLockConfigurationInput
+//@   at-call json.Marshal {C10} [an-accepted-lock-configuration-is-enabled] requires as($0, BucketLockConfig).Enabled
